@@ -147,6 +147,27 @@ def check(ctx):
                            f"`{ast.unparse(n.ast)}` stores a value of abstract width {val}; the {field} field is {W} octet(s)",
                            key=n.ast)
     ctx.floor("fixed_width_setters", nset, 11)
+    # the width helpers themselves: N octets, network byte order (derived from each helper's own body)
+    iu = ctx.need(repo.mods.get("bromelia._internal_utils"), "module bromelia._internal_utils")
+    nh = 0
+    for hname, fnode in sorted(iu.funcs.items()):
+        if not (hname.startswith("convert_to_") and hname.endswith(("_byte", "_bytes")) and hname.split("_")[2].isdigit()):
+            continue
+        nh += 1
+        want_n = int(hname.split("_")[2])
+        w = repo.helper_width(iu, hname)
+        ctx.decide(w is not None and w[0] == want_n and w[1] == "big", "R-WIDTH/helper", f"bromelia._internal_utils.{hname}",
+                   f"{iu.rel}:{fnode.lineno}", f"{hname} packs {want_n} octet(s) big-endian",
+                   f"{hname} is derived as {w} from its body: expected {want_n} octet(s) in network (big-endian) byte order - every "
+                   f"fixed-width header/AVP field passes through it", key=hname)
+    ctx.floor("width_helpers", nh, 6)
+    ib = repo.fold(iu, ast.parse("convert_to_integer_from_bytes").body[0].value)
+    rf = iu.funcs.get("convert_to_integer_from_bytes")
+    if rf is not None:
+        src = ast.unparse(rf)
+        ctx.decide("byteorder='big'" in src, "R-WIDTH/helper", "bromelia._internal_utils.convert_to_integer_from_bytes",
+                   f"{iu.rel}:{rf.lineno}", "integers are read big-endian", "convert_to_integer_from_bytes does not read big-endian",
+                   key="from_bytes")
     for name, want in (("DIAMETER_HEADER_LENGTH", 20), ("AVP_HEADER_LENGTH", 8), ("AVP_HEADER_LENGTH_LONGER", 12)):
         v = fold_name(name)
         ctx.decide(v == want, "R-TABLE/field-const", f"bromelia.constants.general.{name}", "bromelia/constants/general.py",
